@@ -3,7 +3,14 @@
 import json, os, re
 root = os.path.dirname(os.path.dirname(os.path.abspath(__file__)))
 rows = []
-for l in open(os.path.join(root, "seeded", "RESULTS.tsv")):
+lines = {}
+for name in ["RESULTS-round1.tsv", "RESULTS.tsv"]:
+    fp = os.path.join(root, "seeded", name)
+    if os.path.exists(fp):
+        for l in open(fp):
+            if l.strip():
+                lines[l.split("\t")[0]] = l  # a later run of the same change replaces the earlier one
+for l in [lines[k] for k in sorted(lines)]:
     f = l.rstrip("\n").split("\t")
     m = f[0]
     meta = json.load(open(os.path.join(root, "seeded", m, "meta.json")))
